@@ -139,6 +139,15 @@ def isFloatTok : Tok → Bool
   | .str s => s.startsWith "f:"
   | _ => false
 
+/-- decorations of a case the model does not depend on (format, own shapes, repetition, Metrics
+    bracket, laziness, boxed scalars, tuple coordinates …): reported so that starvation is visible -/
+def decoTags (j : Json) : List String :=
+  ["fmt", "fmtb", "fmts", "fmtsb", "shapeb", "bdflt", "reps", "metrics", "grow", "skind", "lazyb", "flat", "dbl"].filterMap
+    (fun k => match j.getObjVal? k with
+      | .ok Json.null => none
+      | .ok _ => some ("deco:" ++ k)
+      | .error _ => none)
+
 def handleBin (j : Json) : Except String Verdict := do
   let op ← binOfStr (← fStr j "op")
   let ka ← kindOfStr (← fStr j "ka")
@@ -155,7 +164,7 @@ def handleBin (j : Json) : Except String Verdict := do
   let tags := [s!"bin:{(binName op)}:{kindStr ka}{kindStr kb}",
                if isFloatTok x || isFloatTok y then "float" else "int"] ++
               (match s with | .raised _ => ["value-op-raises"] | .typeError => ["value-op-raises"] | _ => []) ++
-              (if (leanBin op x y).isSome then ["lean-arith"] else ["oracle-arith"])
+              (if (leanBin op x y).isSome then ["lean-arith"] else ["oracle-arith"]) ++ decoTags j
   pure { agree := decide (m = impl), spec := cons && decide (impl = s), model := resToJson m, tags,
          why := if cons then "" else "oracle disagrees with Lean integer arithmetic" }
 
@@ -230,7 +239,7 @@ def handleIop (j : Json) : Except String Verdict := do
   let alias := match j.getObjVal? "alias" with | .ok (Json.bool true) => true | _ => false
   let tags := [s!"iop:{fStrD j "op" "?"}:{kindStr ka}{kindStr kb}",
                if isFloatTok x || isFloatTok y then "float" else "int"] ++
-              (if alias then ["alias"] else [])
+              (if alias then ["alias"] else []) ++ decoTags j
   pure { agree := decide (m = impl), spec := cons && decide (impl = s), model := iresToJson m, tags,
          why := if cons then "" else "oracle disagrees with Lean integer arithmetic" }
 
@@ -274,6 +283,14 @@ def handleScalarLeaf (j : Json) (op : String) (dflt : Int) : Except String Verdi
   let a0 : Fib Int Int := show List (Int × T 0) from a
   let n := shapeOf (c11OptNat j "shape") a0
   if isAdd && !inShapeB n a0 then return { agree := true, spec := true, tags := ["OUT_OF_MODEL"] }
+  -- an in-place form applied twice: the second application starts from the model's first result
+  let a0 : Fib Int Int := if (c11OptNat j "reps").getD 1 ≥ 2 then
+      (match op with
+       | "isadd" => isaddF dflt s n a0
+       | "ismul" => ismulF dflt s a0
+       | _ => a0)
+    else a0
+  let a : T 1 := show List (Int × T 0) from a0
   let m : Fib Int Int := match op with
     | "sadd" | "radd" => saddF dflt s n a0
     | "isadd" => isaddF dflt s n a0
@@ -282,7 +299,7 @@ def handleScalarLeaf (j : Json) (op : String) (dflt : Int) : Except String Verdi
   let mT : T 1 := show List (Int × T 0) from m
   let tags := [s!"fiber:{op}", "leaf", s!"dflt{dflt}", if (c11OptNat j "shape").isSome then "shape-declared" else "shape-estimated"] ++
     (if a0.isEmpty then ["emptyA"] else []) ++ (if a0.any (fun e => e.2 == dflt) then ["explicit-default"] else []) ++
-    (if isAdd && a0.length < n then ["fills"] else []) ++ (if s == 0 then ["s=0"] else []) ++ actTags j
+    (if isAdd && a0.length < n then ["fills"] else []) ++ (if s == 0 then ["s=0"] else []) ++ actTags j ++ decoTags j
   match implOut with
   | some out =>
     let out0 : Fib Int Int := show List (Int × T 0) from out
@@ -312,7 +329,7 @@ def handleScalarDeep (j : Json) (op : String) (dflt : Int) (d' : Nat) : Except S
   let ns := shape2.map Int.toNat
   let m : T (d' + 2) := if isAdd then saddT dflt s (d' + 2) ns a else smulT dflt s (d' + 2) a
   let tags := [s!"fiber:{op}", "depth2", s!"dflt{dflt}", "deep-scalar"] ++
-    (if (content dflt (d' + 2) a).isEmpty then ["emptyA"] else [])
+    (if (content dflt (d' + 2) a).isEmpty then ["emptyA"] else []) ++ decoTags j
   let modelJ := treeToJson (d' + 2) m
   match implOut, implErr with
   | some out, _ =>
@@ -340,13 +357,20 @@ def handleFiber (j : Json) : Except String Verdict := do
   | "add" | "mul" | "iadd" | "imul" =>
     let b ← fTree j "b" (d + 1)
     if !wfB (d + 1) b then return { agree := true, spec := true, tags := ["OUT_OF_MODEL"] }
+    -- an in-place form applied twice: the second application starts from the model's first result
+    let a : T (d + 1) := if (c11OptNat j "reps").getD 1 ≥ 2 then
+        (match op with
+         | "iadd" => iaddT dflt (d + 1) a b
+         | "imul" => imulT dflt d a b
+         | _ => a)
+      else a
     let m : T (d + 1) := match op with
       | "add" => addT dflt (d + 1) a b
       | "mul" => mulT dflt (d + 1) a b
       | "iadd" => iaddT dflt (d + 1) a b
       | _ => imulT dflt d a b
     let exp : Int → Int → Int := if op == "add" || op == "iadd" then addExpect dflt else mulExpect dflt
-    let tags := [s!"fiber:{op}", dtag, s!"dflt{dflt}"] ++ fiberTags dflt d a b ++ actTags j
+    let tags := [s!"fiber:{op}", dtag, s!"dflt{dflt}"] ++ fiberTags dflt d a b ++ actTags j ++ decoTags j
     match implOut with
     | some out =>
       let structEq := (treeToJson (d + 1) out).compress == (treeToJson (d + 1) m).compress
